@@ -74,6 +74,13 @@ class TupleV(namedtuple("TupleV", "items")):
     __slots__ = ()
 
 
+class FuncRef(namedtuple("FuncRef", "name")):
+    """A reference to a module-level function of the analysed package (functions are first-class: they can be bound
+    to locals, wrapped by functools.partial and passed as arguments)."""
+
+    __slots__ = ()
+
+
 class Opaque(namedtuple("Opaque", "tag")):
     """A value we know nothing about except a tag (e.g. lambda, nested function)."""
 
@@ -219,9 +226,74 @@ class Domain:
     attr_may_raise = False
     iter_may_raise = False
 
+    global_keys = ()  # plain-string state keys that are tracked facts rather than locals of the current frame
+    max_inline_depth = 3
+
     def __init__(self, prog=None, fn=None):
         self.prog = prog
         self.fn = fn
+        self._depth = 0
+        self.frames = []
+
+    # ---- inter-procedural inlining --------------------------------------------------------
+    def is_global_key(self, k):
+        return isinstance(k, tuple) or (isinstance(k, str) and (k.startswith("self.") or k in self.global_keys))
+
+    def bind_params(self, finfo, args, kwargs):
+        """Parameter name -> abstract value for a call of `finfo` (defaults constant-folded, else TOP)."""
+        from .model import fold, NotConst
+
+        bound = {}
+        pos = finfo.pos_params()
+        for p, a in zip(pos, args):
+            bound[p.name] = a
+        for k, v in kwargs.items():
+            if not k.startswith("**"):
+                bound[k] = v
+        for p in finfo.params:
+            if p.name == "self" or p.name in bound or p.kind in ("vararg", "kwarg"):
+                continue
+            if p.has_default:
+                try:
+                    bound[p.name] = Const(fold(p.default, finfo.module))
+                except NotConst:
+                    bound[p.name] = TOP
+            else:
+                bound[p.name] = TOP
+        return bound
+
+    def inline(self, node, finfo, args, kwargs, state):
+        """Interpret the callee with this same domain; tracked facts flow through, locals are per frame.
+        -> list of ('ok', value, state) / ('exc', Exc, state), or None when the depth bound is reached."""
+        if self._depth >= self.max_inline_depth or any(fr["fn"] is finfo for fr in self.frames):
+            return None
+        bound = self.bind_params(finfo, args, kwargs)
+        env = {k: v for k, v in state.d.items() if self.is_global_key(k)}
+        env.update(bound)
+        self._depth += 1
+        self.frames.append({"fn": finfo, "site": node, "bound": bound})
+        saved = self.fn
+        self.fn = finfo
+        try:
+            outs = Interp(self, finfo.node, self.prog).run(Env(env))
+        finally:
+            self.fn = saved
+            self.frames.pop()
+            self._depth -= 1
+        locals_ = {k: v for k, v in state.d.items() if not self.is_global_key(k)}
+        res, seen = [], set()
+        for kind in ("ret", "exc"):
+            for s, v, t in outs.of(kind):
+                md = dict(locals_)
+                md.update({k: v2 for k, v2 in s.d.items() if self.is_global_key(k)})
+                merged = Env(md)
+                val = v if _hashable(v) else TOP
+                key = (kind, val, merged)
+                if key in seen:
+                    continue
+                seen.add(key)
+                res.append(("ok" if kind == "ret" else "exc", val, merged))
+        return res
 
     # ---- state ---------------------------------------------------------
     def init_state(self, fn_node):
